@@ -223,6 +223,34 @@ func suiteStructs(r *Rng, n int, thorough bool, o *Out) {
 				pvB = "FAIL:built type: " + m
 			}
 		}
+		if accepted && pvB == "ok" && r.chance(1, 3) {
+			// the type of a struct is what its tags declare every time it is built, whatever
+			// the caller did to an earlier result (edit it: one more attribute, one field less)
+			o.stat("build.again-after-edit")
+			first := typ.Copy()
+			if typ.Attrs != nil {
+				typ.Attrs["added-by-the-caller"] = jsonapi.Attr{Name: "added-by-the-caller", Type: jsonapi.AttrTypeInt}
+			}
+			for k := range typ.Rels {
+				delete(typ.Rels, k)
+				break
+			}
+			for k := range typ.Attrs {
+				if k != "added-by-the-caller" {
+					delete(typ.Attrs, k)
+					break
+				}
+			}
+			var typ2 jsonapi.Type
+			var err2 error
+			if p2, _ := guard(func() { typ2, err2 = jsonapi.BuildType(mk()) }); p2 || err2 != nil {
+				pvB = "FAIL:building the type a second time fails"
+			} else if m := declaredTypeMismatch(st, typ2); m != "" {
+				pvB = "FAIL:type built a second time (after the first result was edited): " + m
+			}
+			typ = first
+			typ.NewFunc = typ2.NewFunc
+		}
 		o.emit(lst("struct", "build", sh.sx), obsB, pvB)
 
 		// Wrap
